@@ -251,19 +251,25 @@ class Interp:
             return self._sync(t, opid, "cancel", [op[1]], o.cancel)
         if k == "set_shield":
             def f():
-                objs[op[1]].shield = op[2]
+                o = objs[op[1]]
+                (o.cancel_scope if hasattr(o, "cancel_scope") else o).shield = op[2]
             return self._sync(t, opid, "set_shield", [op[1], op[2]], f)
         if k == "set_deadline":
             def f():
                 v = op[2]
                 if v == "inf":
                     v = math.inf
+                elif v == "-inf":
+                    v = -math.inf
                 elif isinstance(v, list):  # ["rel", d]
                     v = w.loop.time() + v[1]
                 objs[op[1]].deadline = v
             return self._sync(t, opid, "set_deadline", [op[1], op[2]], f)
         if k == "raise":
-            e = BaseBoom(op[1]) if len(op) > 2 and op[2] == "base" else Boom(op[1])
+            if len(op) > 2 and op[2] == "genexit":
+                e = GeneratorExit(op[1])  # what aclose() of an async generator throws in
+            else:
+                e = BaseBoom(op[1]) if len(op) > 2 and op[2] == "base" else Boom(op[1])
             w.ev("x", t, opid, "raise", [op[1]], ["ok", None])
             raise e
         if k == "try":
@@ -341,6 +347,8 @@ class Interp:
         kind = o.get("kind", "scope")
         shield = bool(o.get("shield", False))
         now = w.loop.time()
+        if dl == "-inf":
+            dl = -math.inf
         if kind == "scope":
             if dl is None:
                 cm = anyio.CancelScope(shield=shield)
